@@ -5,6 +5,7 @@ import (
 	"bytes"
 	"errors"
 	"io"
+	"regexp"
 	"strconv"
 	"strings"
 
@@ -142,5 +143,17 @@ func VerifT00_EmbeddedInterfaceWriter() {
 	w.WriteByte('x')
 	out := b.Bytes()
 	sym.Assert(len(out) == 2 && out[0] == c && out[1] == 'x', "bytes written through the embedded writer")
+	sym.Reach("done")
+}
+
+var verifRe = regexp.MustCompile(`\$(\w+)|\$\{(\w+)\}`)
+
+// VerifT00_Regexp: can the engine execute the regexp package on a concrete input?
+//
+//verif:reach done
+//verif:steps 50000000
+func VerifT00_Regexp() {
+	m := verifRe.FindAllStringSubmatchIndex("a.$app.${lvl}", -1)
+	sym.Assert(len(m) == 2 && m[0][0] == 2 && m[1][0] == 7, "matches found")
 	sym.Reach("done")
 }
